@@ -666,7 +666,11 @@ def main(argv, registry):
             path = os.path.join(WORK, "replay", f"{prop}.{stage}.{tier}.ndjson")
             with open(path, "w") as f:
                 seen = set()
+                done_groups = set()
                 for ev, failed, grp in items:
+                    if id(grp) in done_groups:
+                        continue
+                    done_groups.add(id(grp))
                     for case in grp:
                         cid = case.get("cid")
                         if cid in seen:
